@@ -24,7 +24,7 @@ ASSUMPTIONS = [
     "x, y, layer and visualization are not part of stand-alone synth files (documented) and are excluded from the synth-context comparison",
 ]
 REQUIRED_LABELS = {
-    "quick": ["neg_min_ctl_at_min", "ctl_at_range_end", "dependent_ctl_set", "payload_nondefault", "options_set", "cmid_set", "empty_synth", "second_generation", "earlier_copy_edited_then_copied_again", "metamodule_nested_2_levels"],
+    "quick": ["neg_min_ctl_at_min", "ctl_at_range_end", "dependent_ctl_set", "payload_nondefault", "options_set", "cmid_set", "empty_synth", "second_generation", "earlier_copy_edited_then_copied_again", "metamodule_nested_2_levels", "empty_effect_then_completed"],
     "thorough": ["neg_min_ctl_at_min", "ctl_at_range_end", "dependent_ctl_set", "unit_changed", "payload_nondefault", "options_set", "cmid_set", "empty_synth", "sampler_with_samples", "sampler_with_effect", "metamodule_user_ctls", "name_straddles_32"]
     + ["type_" + t for t in build.attachable_types()],
 }
@@ -98,6 +98,9 @@ def check_module_spec(ctx, ms):
     # (c) project context (a fresh module built from the same recipe)
     mod2 = build.make_module(ms)
     p = Project()
+    ver = [None, (1, 9, 4, 2), None, (1, 7, 0, 0), None, (2, 0, 0, 0)][len(repr(ms)) % 6]
+    if ver:
+        p.sunvox_version = ver  # the project is written as a file of an older SunVox version
     p.attach_module(mod2)
     sp0 = snapshot.snap_module(mod2, in_project=True)
     pdata = p.read()
@@ -159,6 +162,47 @@ def run_shard(ctx, desc):
             ctx.check(f.getvalue() == b"", "C02.empty_synth.writes_nothing", "Synth() wrote %d bytes before refusing" % len(f.getvalue()), recipe={"op": "empty_synth", "how": i})
             ctx.label("empty_synth")
             ctx.mark_nontrivial(["empty_synth", i])
+        # an empty synth nested in a container: a Sampler whose effect has no module yet refuses to be
+        # written, whichever way, writes nothing half-way into the caller's stream... and once the effect
+        # has its module the very same Sampler saves completely
+        from rv.api import Project, m, read_sunvox_file
+
+        for how in range(4):
+            ctx.case()
+            sm = m.Sampler()
+            sm.effect = Synth()
+            err = None
+            try:
+                if how == 0:
+                    Synth(sm).read()
+                elif how == 1:
+                    sm.clone()
+                elif how == 2:
+                    p = Project()
+                    p.attach_module(sm)
+                    p.read()
+                else:
+                    Synth(sm).write_to(BytesIO())
+            except Exception as e:  # noqa: BLE001
+                err = e
+            ctx.check(isinstance(err, EmptySynthError), "C02.empty_synth.nested_refuses", "Sampler with a module-less effect (%d): expected EmptySynthError, got %r" % (how, err), recipe={"op": "empty_effect", "how": how})
+            for attempt in range(2):
+                try:
+                    Synth(sm).read()
+                except EmptySynthError:
+                    pass
+            sm.effect.module = m.Echo(delay=77)
+            for again in range(2):
+                if how == 2:
+                    back = read_sunvox_file(BytesIO(sm.parent.read())).modules[1]
+                elif how == 1:
+                    back = sm.clone()
+                else:
+                    back = read_sunvox_file(BytesIO(Synth(sm).read())).module
+                ok = back.effect is not None and back.effect.module is not None and type(back.effect.module).__name__ == "Echo" and back.effect.module.delay == 77
+                ctx.check(ok, "C02.empty_synth.then_completed", "Sampler whose effect got its module after a refused save (%d, save %d): effect comes back as %r" % (how, again, back.effect and back.effect.module), recipe={"op": "empty_effect", "how": how})
+            ctx.label("empty_effect_then_completed")
+            ctx.mark_nontrivial(["empty_effect", how])
         ctx.sample({"op": "empty_synth"})
         return
 
